@@ -9,6 +9,7 @@ the hypothesis `decompress (compress b) = some b`.
 import OG.C07.LemmasInt
 import OG.C07.LemmasTime
 import OG.C07.LemmasBool
+import OG.C07.LemmasFloat
 
 namespace OG.C07
 open OG.Gen.C07
@@ -271,5 +272,149 @@ theorem bool_roundtrip (vs : List Bool) (hlen : vs.length < 2 ^ 32) :
 
 example : encodeBool [true, false, true, true, false, false, false, false, true]
     = [0x10, 0, 0, 0, 9, 0xb0, 0x80] := by decide
+
+/-! ## floats -/
+
+/-- **RLE** on bit patterns: runs of any length (split at `RLEBlockLimit`), zero runs stored
+without a value; −0.0 and NaN payloads are ordinary bit patterns here. -/
+theorem rle_roundtrip (vs : List W) : rleDecode (rleEncode vs).length (rleEncode vs) = some vs :=
+  rle_roundtrip' vs
+
+example : rleEncode [0#64, 0#64, 0x8000000000000000#64, 5#64, 5#64]
+    = [0x80, 2, 0, 1, 0, 0, 0, 0, 0, 0, 0, 0x80, 0, 2, 5, 0, 0, 0, 0, 0, 0, 0] := by decide
+
+/-- what `floatMode = .same` guarantees. -/
+theorem floatMode_same {P : FloatPreds} {vs : List W} (h : floatMode P vs = .same) :
+    ∃ v rest, vs = v :: rest ∧ (∀ x ∈ rest, x = v) ∧ rest.length + 1 ≤ 65535 := by
+  unfold floatMode at h
+  by_cases h1 : vs.length ≤ floatCompressThreshold
+  · simp [h1] at h
+  · simp only [h1, if_false] at h
+    by_cases h2 : countDistinct vs = 1 ∧ vs.length ≤ 65535
+    · cases vs with
+      | nil => simp [floatCompressThreshold] at h1
+      | cons v rest =>
+        refine ⟨v, rest, rfl, ?_, by simpa using h2.2⟩
+        have : countDistinctFrom v rest = 0 := by
+          have := h2.1; simp only [countDistinct] at this; omega
+        exact countDistinctFrom_zero rest v this
+    · simp only [h2, if_false] at h
+      split at h
+      · cases h
+      · split at h <;> cases h
+
+theorem floatMode_gorilla {P : FloatPreds} {vs : List W} (h : floatMode P vs = .gorilla) :
+    ∀ v ∈ vs, isNaNorInf v = false := by
+  unfold floatMode at h
+  by_cases h1 : vs.length ≤ floatCompressThreshold
+  · simp [h1] at h
+  · simp only [h1, if_false] at h
+    by_cases h2 : countDistinct vs = 1 ∧ vs.length ≤ 65535
+    · simp [h2] at h
+    · simp only [h2, if_false] at h
+      by_cases h3 : countDistinct vs ≤ floatRLECompressThreshold
+      · simp [h3] at h
+      · simp only [h3, if_false] at h
+        split at h
+        · cases h
+        · rename_i hc
+          intro v hv
+          simp only [Bool.or_eq_true, not_or, List.any_eq_true, not_exists, not_and] at hc
+          have := hc.2 v hv
+          simpa using this
+
+/-- **float block, round trip**: for every block of float64 bit patterns (NaN payloads, ±0,
+subnormals, ±Inf, any length), whichever frame `adaptiveEncoding` picks (null / same-value /
+RLE / snappy / gorilla, incl. the 90 % fall-back to null), if encoding succeeds then decoding
+returns the identical bit patterns — for every choice of the `isInt` / `lessDecimal`
+predicates, every snappy with `unsnappy ∘ snappy = id` and every partial gorilla encoder whose
+successes decode back. -/
+theorem float_frame_roundtrip (P : FloatPreds) (snappy : Bytes → Bytes)
+    (unsnappy : Bytes → Option Bytes) (gorilla : List W → Option Bytes)
+    (ungorilla : Bytes → Option (List W))
+    (hs : ∀ b, unsnappy (snappy b) = some b)
+    (hg : ∀ vs g, gorilla vs = some g → ungorilla g = some vs)
+    (vs : List W) (bs : Bytes) (henc : encodeFloat P snappy gorilla vs = some bs) :
+    decodeFloat unsnappy ungorilla bs = some vs := by
+  unfold encodeFloat at henc
+  by_cases hnil : vs = []
+  · subst hnil; simp at henc; subst henc; rfl
+  simp only [hnil, if_false] at henc
+  have hnull : decodeFloat unsnappy ungorilla (nullBytes vs) = some vs := by
+    simp only [nullBytes, decodeFloat, modeByte_ty _ (show floatCompressedNull < 16 by decide),
+      if_true]
+    rw [unleWords_leWords _ _ (by simp; omega)]
+  have hsn : decodeFloat unsnappy ungorilla (modeByte floatCompressedSnappy :: snappy (leWords vs))
+      = some vs := by
+    simp only [decodeFloat, modeByte_ty _ (show floatCompressedSnappy < 16 by decide)]
+    simp only [show ¬ (floatCompressedSnappy = floatCompressedNull) by decide,
+      show ¬ (floatCompressedSnappy = floatCompressedGorilla) by decide, if_false, if_true, hs,
+      Option.map_some]
+    rw [unleWords_leWords _ _ (by simp; omega)]
+  have hgo : ∀ g, gorilla vs = some g →
+      decodeFloat unsnappy ungorilla (modeByte floatCompressedGorilla :: g) = some vs := by
+    intro g hgv
+    simp only [decodeFloat, modeByte_ty _ (show floatCompressedGorilla < 16 by decide)]
+    simp only [show ¬ (floatCompressedGorilla = floatCompressedNull) by decide, if_false, if_true]
+    exact hg vs g hgv
+  cases hm : floatMode P vs with
+  | null => simp only [hm] at henc; cases henc; exact hnull
+  | same =>
+    simp only [hm] at henc; cases henc
+    obtain ⟨v, rest, rfl, hall, hlen⟩ := floatMode_same hm
+    simp only [decodeFloat, modeByte_ty _ (show floatCompressedSame < 16 by decide)]
+    simp only [show ¬ (floatCompressedSame = floatCompressedNull) by decide,
+      show ¬ (floatCompressedSame = floatCompressedGorilla) by decide,
+      show ¬ (floatCompressedSame = floatCompressedSnappy) by decide, if_false, if_true]
+    exact same_roundtrip v rest hall hlen
+  | rle =>
+    simp only [hm] at henc; cases henc
+    simp only [decodeFloat, modeByte_ty _ (show floatCompressedRLE < 16 by decide)]
+    simp only [show ¬ (floatCompressedRLE = floatCompressedNull) by decide,
+      show ¬ (floatCompressedRLE = floatCompressedGorilla) by decide,
+      show ¬ (floatCompressedRLE = floatCompressedSnappy) by decide,
+      show ¬ (floatCompressedRLE = floatCompressedSame) by decide, if_false, if_true]
+    exact rle_roundtrip' vs
+  | snappy =>
+    simp only [hm] at henc
+    split at henc <;> cases henc
+    · exact hnull
+    · exact hsn
+  | gorilla =>
+    simp only [hm] at henc
+    cases hgv : gorilla vs with
+    | none => simp [hgv] at henc
+    | some g =>
+      simp only [hgv] at henc
+      split at henc <;> cases henc
+      · exact hnull
+      · exact hgo g hgv
+
+/-- **float block, totality**: encoding never fails on any block of float64 bit patterns —
+NaN and ±Inf included — provided the gorilla encoder accepts every block free of NaN and ±Inf
+(its documented domain: it refuses exactly the blocks whose running sum is NaN). -/
+theorem float_encode_total (P : FloatPreds) (snappy : Bytes → Bytes)
+    (gorilla : List W → Option Bytes)
+    (hdom : ∀ vs, (∀ v ∈ vs, isNaNorInf v = false) → (gorilla vs).isSome = true)
+    (vs : List W) : (encodeFloat P snappy gorilla vs).isSome = true := by
+  unfold encodeFloat
+  by_cases hnil : vs = []
+  · simp [hnil]
+  simp only [hnil, if_false]
+  cases hm : floatMode P vs with
+  | gorilla =>
+    have := hdom vs (floatMode_gorilla hm)
+    obtain ⟨g, hg⟩ := Option.isSome_iff_exists.mp this
+    simp [hg]
+  | _ => simp
+
+/-- non-vacuity: −0.0 ×5 is a same-value block that keeps its sign bit; +Inf/−Inf among
+integers is a snappy block (never offered to gorilla); 70 000 equal values are not a
+same-value block. -/
+example : encodeFloat ⟨fun _ => true, fun _ => true⟩ (fun b => b) (fun _ => none)
+    (List.replicate 5 0x8000000000000000#64) = some [0x40, 0, 5, 0, 0, 0, 0, 0, 0, 0, 0x80] := by decide
+example : floatMode ⟨fun _ => true, fun _ => true⟩
+    [1#64, 2#64, 3#64, 4#64, 5#64, 6#64, 7#64, 8#64, 9#64, 0x7ff0000000000000#64, 0xfff0000000000000#64]
+    = .snappy := by decide
 
 end OG.C07
